@@ -332,6 +332,55 @@ pub fn run(prop: &'static str, tier: &str) -> i32 {
         all.merge(a);
     }
 
+    // phase 4e: key material rotated in place - the same buffer is overwritten with the next key of the same
+    // length and handed to the library again, on the issuing and on the accepting side: every token must open
+    // under the key that was in the buffer when it was made
+    {
+        let units: Vec<(Proto, Layer)> = protos.iter().flat_map(|p| Layer::ALL.iter().map(move |l| (*p, *l))).collect();
+        let accs = par_units(&units, |(p, l)| {
+            let mut acc = Acc::default();
+            let pool = domains::key_pool(*p);
+            let al = full_alphabet(*p, true);
+            let seed = if p.is_local() { Some(al.seeds[2].as_slice()) } else { None };
+            let Some(first) = pool.iter().find(|k| pool.iter().filter(|o| o.sk.len() == k.sk.len() && o.pk.len() == k.pk.len()).count() >= 2) else { return acc };
+            let same_len: Vec<&KeyMat> = pool.iter().filter(|k| k.sk.len() == first.sk.len() && k.pk.len() == first.pk.len()).take(4).collect();
+            let mut sk_buf = same_len[0].sk.clone();
+            let mut pk_buf = same_len[0].pk.clone();
+            for (round, k) in same_len.iter().chain(same_len.iter()).enumerate() {
+                sk_buf.copy_from_slice(&k.sk);
+                pk_buf.copy_from_slice(&k.pk);
+                acc.executions += 1;
+                acc.choice_points += 1;
+                acc.impl_calls += 2;
+                let msg = format!("rotation round {}", round);
+                let issued = crate::adapter::issue(*p, *l, &sk_buf, seed, &msg, &[], Some("f"), None);
+                let back = match &issued {
+                    Out::Ok(t) => Some(crate::adapter::present(*p, *l, &pk_buf, t, Some("f"), None).0),
+                    _ => None,
+                };
+                let ok = match &back {
+                    Some(Out::Ok(Opened::Msg(m))) => *m == msg,
+                    Some(Out::Ok(Opened::Json(v, _))) => v["data"] == json!(msg),
+                    _ => false,
+                };
+                if ok {
+                    acc.controls_ok += 1;
+                    acc.bump("rotated-key:round-trip-ok");
+                } else {
+                    acc.violate(
+                        format!("{}|{}/{}|key-rotated-in-place|{}", prop, p.name(), l.name(), if issued.is_ok() { "not-opened" } else { "not-issued" }),
+                        format!("key buffer overwritten with key {} (round {}): issue -> {}, open under the matching key -> {}", k.label, round, issued.short(), back.map_or("-".to_string(), |b| b.short())),
+                        json!({"rotation": {"proto": p.name(), "layer": l.name(), "round": round}}),
+                    );
+                }
+            }
+            acc
+        });
+        let a = Acc::merge_all(accs);
+        phases.push(json!({"phase": "key material rotated in place", "executions": a.executions}));
+        all.merge(a);
+    }
+
     // phase 5: object reuse - one builder building several tokens while being reconfigured, one parser
     // parsing several tokens while being reconfigured / handed different keys: every authentic presentation
     // must still be accepted with the original content
@@ -413,6 +462,10 @@ pub fn replay(prop: &'static str, case: &serde_json::Value) -> i32 {
     }
     if let Some(cs) = case.get("claim_set") {
         return replay_claim_set(prop, cs);
+    }
+    if case.get("rotation").is_some() {
+        println!("this finding comes from the key-rotation history: re-run `./check {} quick`", prop);
+        return 2;
     }
     let Ok(ic) = serde_json::from_value::<IssueCase>(case["issue"].clone()) else {
         crate::report::machinery_error("replay file has no `issue` case");
